@@ -73,7 +73,7 @@ Definition initial (c : N) (fs : list (key * (N * N))) : st :=
 
 Definition run_c07 (x : sx) : sx :=
   match x with
-  | SL [c; SL fs; SL ops] =>
+  | SL (c :: SL fs :: SL ops :: _) =>   (* an optional 4th element selects the harness's mtime regime; the model ignores it *)
       match dec_ops ops with
       | Some os =>
           let s0 := initial (get_N c) (map dec_file fs) in
